@@ -7,6 +7,7 @@ import (
 	"fmt"
 	"io"
 	"net"
+	"runtime"
 	"strconv"
 	"strings"
 	"time"
@@ -55,6 +56,7 @@ type c11world struct {
 	node *memfs.Node
 	wn   *memfs.Node
 	cl   *p9.Client
+	root p9.File
 	f    p9.File // synthetic file, open RW
 	wf   p9.File // stored file, open RW
 	conn net.Conn
@@ -100,6 +102,7 @@ func c11SetupPrimed(c *ev.Ctx, msize, prime uint32) *c11world {
 		if err != nil {
 			return
 		}
+		w.root = root
 		_, w.f, err = root.Walk([]string{"s"})
 		if err != nil {
 			return
@@ -157,6 +160,7 @@ func offClass(off int64, size uint64) string {
 }
 
 func runC11(c *ev.Ctx) {
+	c11LastUse(c)
 	r := c.Rand("c11")
 	msizes := []uint32{154, 155, 665, 666, 1023, 1024, 1025, 4096, 65536, 1 << 20}
 	if c.Thorough() {
@@ -488,4 +492,96 @@ func c11Write(c *ev.Ctx, w *c11world, ms uint32, L, bound, n int, off int64, fau
 	}
 	c.Count("write_calls", 1)
 	c.Count("chunks_observed", int64(len(ch)))
+}
+
+// c11LastUse: the ReadAt / WriteAt is the last thing the program does with the
+// File - it keeps no reference and never calls Close, as the finalizer on client
+// Files invites. While the chunks are under way the collector runs (the backend
+// forces it from the second chunk on). The call still behaves as one operation:
+// the File it is running on is not finalized (its fid clunked, the number handed
+// to somebody else) under its feet.
+func c11LastUse(c *ev.Ctx) {
+	for round := 0; round < c.Sz(6, 60); round++ {
+		if !c.Mine(round + 3) {
+			continue
+		}
+		ms := []uint32{1177, 4096, 700}[round%3]
+		write := round%2 == 1
+		c.Begin(fmt.Sprintf("C11 last use msize=%d write=%v", ms, write))
+		w := c11Setup(c, ms)
+		if w == nil {
+			continue
+		}
+		w.node.SynthSz = 1 << 30
+		k := 0
+		w.fs.IOHook = func(method string, o int64, want int) (int, error) {
+			if method == "ReadAt" || method == "WriteAt" {
+				k++
+				if k >= 2 {
+					for i := 0; i < 2; i++ {
+						runtime.GC()
+						time.Sleep(time.Millisecond) // lets the finalizer goroutine and its Tclunk run; no verdict depends on it
+					}
+				}
+			}
+			return -1, nil
+		}
+		var n int
+		var err error
+		var p []byte
+		name := "s"
+		if write {
+			name = "w"
+		}
+		ok := ev.Watch(120*time.Second, func() {
+			n, err, p = func() (int, error, []byte) {
+				_, f, e := w.root.Walk([]string{name})
+				if e != nil {
+					return -1, e, nil
+				}
+				if _, _, e = f.Open(p9.ReadWrite); e != nil {
+					return -1, e, nil
+				}
+				p := make([]byte, 6*int(ms)+17)
+				if write {
+					for i := range p {
+						p[i] = byte(i*7 + round)
+					}
+					n, e := f.WriteAt(p, 3)
+					return n, e, p
+				}
+				n, e := f.ReadAt(p, 5) // the last use of f
+				return n, e, p
+			}()
+		})
+		w.fs.IOHook = nil
+		if !ok {
+			c.Inconclusive("C11 last-use watchdog")
+			w.close()
+			continue
+		}
+		det := map[string]any{"msize": ms, "write": write, "len": len(p), "n": n, "err": fmt.Sprint(err), "chunks": k}
+		c.Case(fmt.Sprintf("last-use:%d:%v", ms, write), k >= 2)
+		switch {
+		case n < 0:
+			c.Inconclusive(fmt.Sprintf("C11 last-use setup: %v", err))
+		case err != nil || n != len(p):
+			c.Violation("C11:last-use:call-cut-short-while-nothing-failed", det)
+		case write:
+			got := w.fs.Lookup("/w").Data
+			if len(got) < 3+len(p) || !bytes.Equal(got[3:3+len(p)], p) {
+				c.Violation("C11:last-use:stored-bytes-differ-from-p", det)
+			}
+		default:
+			for i := range p {
+				if p[i] != memfs.SynthByte(w.node.ID, 5+uint64(i)) {
+					det["at"] = i
+					c.Violation("C11:last-use:bytes-are-not-the-file's", det)
+					break
+				}
+			}
+		}
+		c.Count("last_use_calls", 1)
+		w.close()
+	}
 }
